@@ -103,7 +103,9 @@ CLAIMED = {
         "azimuth/dip as uninterpreted directions), symbolic collar and query depths; z3 proves position(0) == collar, "
         "position(q) == P_i + (q-d_i) * mean(dir_i, dir_i+1) within each leg with P_i+1 the end of leg i (continuity), "
         "continuation beyond the last station, and displacement == depth difference where station directions coincide. "
-        "Partial: vertices/cells created for added depth/interval data are outside the claim.",
+        "match_values / merge_arrays on unsorted heads; and for depth logs (two logs, any order, collocated or not) and "
+        "interval logs (one or two) added to a deviated hole: every vertex sits at desurvey(its depth), every cell joins "
+        "the positions of its from/to depths, each value stays attached to its depth / interval.",
     ),
     "C08": _symx(
         "C08",
